@@ -548,7 +548,7 @@ IsNormal(ver, in) == Same(Norm(ver, in), in)
 (*     json  json.Unmarshal(data, &t)        yaml  yaml.Unmarshal(data, &t)  *)
 (*     meth  t.UnmarshalJSON(data)           alt   json, yaml, json ... in turn *)
 (*     loader (OpenAPI 3) one Loader, LoadFromData for every document        *)
-(*     lpath  (OpenAPI 3) one Loader, LoadFromDataWithPath, a new location each time *)
+(*     lpath  (OpenAPI 3) one Loader, LoadFromDataWithPath, a new file name in one directory each time *)
 (* L2 (implementation-shaped): how UnmarshalJSON of the root treats its      *)
 (* receiver.  "replace" (the code: decode into a fresh value, then assign    *)
 (* the whole struct) satisfies L1; "inplace" (decode into the receiver:      *)
@@ -559,7 +559,10 @@ HistEntries(ver) == {"json", "yaml", "meth", "alt"} \cup (IF ver = 3 THEN {"load
 (* prior documents, by name: every optional root field populated (inline) with extension and unknown key;  *)
 (* the bare root; the full document with one field of the wrong JSON type placed last, so that the parse   *)
 (* fails after the fields before it have been decoded.                                                     *)
-PriorNames == {"full", "min", "bad"}
+(* "xdoc" (OpenAPI 3): every component collection holds a reference into the external document, the two   *)
+(* paths are a whole-file and a fragment reference: a Loader that has loaded it has every external         *)
+(* resource in its caches when the document under test asks for the same ones.                            *)
+PriorNames(ver) == {"full", "min", "bad"} \cup (IF ver = 3 THEN {"xdoc"} ELSE {})
 PriorParses(name) == name # "bad"
 RootFullFv(ver) == LET kind == Root(ver) IN
    {n \in Optional(kind) : FieldOf(kind, n).c # "pref"}
@@ -577,7 +580,13 @@ PriorBad(ver) ==
    LET f == PriorFull(ver)
        keep == [i \in DOMAIN f.k |-> f.k[i] # "tags"]
    IN Ov(Append(Pick(f.k, keep, 1), "tags"), Append(Pick(f.v, keep, 1), Sv("not-an-array")))
+PriorX ==
+   LET cf == Fields("Components")
+       comps == Ov([i \in DOMAIN cf |-> cf[i].n], [i \in DOMAIN cf |-> Val("Components", cf[i], "xfrag")])
+       paths == Ov(<<"/p", "/q/{id}">>, <<O1("$ref", Sv(XRefStr("PathItem"))), O1("$ref", Sv(XFragStr("PathItem")))>>)
+   IN SetKey(SetKey(Min("T3"), "paths", paths), "components", comps)
 PriorDoc(ver, name) == CASE name = "full" -> PriorFull(ver) [] name = "min" -> Min(Root(ver)) [] name = "bad" -> PriorBad(ver)
+                         [] name = "xdoc" -> PriorX
 
 RecvPolicies == {"replace", "inplace"}
 (* the abstract content of a receiver: a document value, or EmptyO for the zero value *)
